@@ -100,10 +100,11 @@ PselfImplied(s) == UNION {{<<"a", s.params[i].slots[1]>>, <<"b", s.params[i].slo
 
 \* ---- bounds ---------------------------------------------------------------------------------
 \* `&'x Named<'y..>` implies 'y: 'x   (only for references directly to a named type)
-RefImplied(s) ==
+RetRefImplied(s) == IF s.ret.kind = "ropqlt" THEN {<<s.ret.slots[2], s.ret.slots[1]>>} ELSE {}
+InputRefImplied(s) ==
   {<<s.params[i].slots[2], s.params[i].slots[1]>> : i \in {j \in 1..Len(s.params) : s.params[j].kind = "opqlt"}}
-  \cup (IF s.ret.kind = "ropqlt" THEN {<<s.ret.slots[2], s.ret.slots[1]>>} ELSE {})
   \cup (IF s.self.kind = "sf2b" THEN {<<s.self.slots[2], s.self.slots[1]>>, <<s.self.slots[3], s.self.slots[1]>>} ELSE {})
+RefImplied(s) == InputRefImplied(s) \cup RetRefImplied(s)
 \* bounds written on the definitions of the types used, instantiated at the use
 DefImplied(s) ==
   {<<s.params[i].slots[2], s.params[i].slots[1]>> : i \in {j \in 1..Len(s.params) : s.params[j].kind \in {"st2b", "st2w", "stv", "stvo"}}}
@@ -125,9 +126,9 @@ MustRestate(s) == {pr \in DefImplied(s) \cup PselfImplied(s) : pr[1] \in L /\ pr
 AcceptedCore(s) == MustRestate(s) \subseteq TC(Named(Spelled(s)))
 \* (as built) the bound a returned `&'l OpLt<'x>` implies by itself, 'x: 'l, counts as stated only when 'l is WRITTEN: for an elided
 \* borrow that inherits 'l from `&'l self` the tool asks for it on the method ("Method should explicitly include this lifetime bound")
-RetRefImplied(s) == IF s.ret.kind = "ropqlt" THEN {<<s.ret.slots[2], s.ret.slots[1]>>} ELSE {}
+\* (the same bound implied by a PARAMETER's written reference still counts)
 AcceptedElided(s) == LET d == Desugar(s) IN
-  SelfNamed(s) /\ (MustRestate(d) \cup Named(RetRefImplied(d))) \subseteq TC(Named(d.decl \cup (RefImplied(d) \ RetRefImplied(d))))
+  SelfNamed(s) /\ (MustRestate(d) \cup Named(RetRefImplied(d))) \subseteq TC(Named(d.decl \cup InputRefImplied(d)))
 Accepted(s) == IF ElidedRet(s.ret.kind) THEN AcceptedElided(s) ELSE AcceptedCore(s)
 
 \* ---- what must be kept alive ----------------------------------------------------------------
